@@ -31,11 +31,15 @@ def run(ctx):
     ctx.require_coverage(r, ["DoExecEnd", "DoRelease"], live)
     # the liveness property is not vacuous: without fairness it fails
     # (vlib does not classify TLC 1.8's "Temporal property X was violated" line: read it here)
-    nf = ctx.tlc(SPEC, "Dispatcher", cfg="MC_LiveNoFair", label="MC_LiveNoFair", expect=("violation", "error"), dump_trace=False)
-    if "Temporal property BecomesAvailable was violated" not in nf.out:
-        ctx.broken("the liveness property is not violated without fairness: vacuous?\n" + nf.out[-800:])
+    # (thorough tier only, to keep the quick tier short)
+    if ctx.thorough:
+        nf = ctx.tlc(SPEC, "Dispatcher", cfg="MC_LiveNoFair", label="MC_LiveNoFair", expect=("violation", "error"), dump_trace=False)
+        if "Temporal property BecomesAvailable was violated" not in nf.out:
+            ctx.broken("the liveness property is not violated without fairness: vacuous?\n" + nf.out[-800:])
     # 2. without the mutex (hazard grain) the property fails in the model
-    ctx.tlc(SPEC, "Dispatcher", cfg="MC_Hazard", label="MC_Hazard", expect=("violation",), dump_trace=False)
+    # (quick tier: the double-dispatch schedules enumerated by Gen_Hazard below are the same evidence)
+    if ctx.thorough:
+        ctx.tlc(SPEC, "Dispatcher", cfg="MC_Hazard", label="MC_Hazard", expect=("violation",), dump_trace=False)
     # 3. behaviours for replay
     seqs = []
     for cfg in ctx.pick(["Gen_Seq"], ["Gen_Seq_T", "Gen_Seq_T2"]):
@@ -76,7 +80,9 @@ def run(ctx):
                       "a recorded concurrent run of walletDispatcher drives the contract model into a state violating %s" % tr.violated,
                       {"tlc": tr.out[-3000:]})
     else:
-        hw = ctx.longest_prefix(tr) or 1
+        import re
+        mh = re.findall(r'"VERIF_HWM",\s*(\d+)', tr.out)
+        hw = int(mh[-1]) if mh else 1
         rejected = json.loads(lines[hw - 1]) if hw <= len(lines) else {}
         ctx.violation("trace:" + str(rejected.get("event", "?")),
                       "recorded concurrent run of walletDispatcher is not a behaviour of the dispatcher contract "
